@@ -220,6 +220,16 @@ def _case(draw):
             els.append(loop)
         c["template"] = c["template"] + els
         c["iters"] = True
+    if mode == "restore" and draw(st.integers(0, 3)) == 0:
+        # python paths switched ON, and expressions that bind names of their own (assignment expressions, a comprehension
+        # variable, a lambda parameter): at the top level of the template and inside a scope - none of them is a TAL variable
+        binders = ["python: (pgvbound := len(lst)) * 2", "python: [pgvx for pgvx in lst2]", "python: (lambda pgvarg: pgvarg)(s1)",
+                   "python: [pgvy := 1, pgvy + 1][1]"]
+        top = {"t": "el", "tag": "p", "attrs": [], "tal": {"content": draw(st.sampled_from(binders))}, "metal": {}, "kids": [{"t": "text", "s": "x"}], "void": False}
+        inner = {"t": "el", "tag": "div", "attrs": [], "tal": {"define": "pyw s1"}, "metal": {}, "void": False,
+                 "kids": [{"t": "el", "tag": "b", "attrs": [], "tal": {"condition": draw(st.sampled_from(binders))}, "metal": {}, "kids": [{"t": "text", "s": "y"}], "void": False}]}
+        c["template"] = draw(st.sampled_from([[top], [top, inner], [inner, top]])) + c["template"]
+        c["pybind"] = True
     return c
 
 
@@ -393,7 +403,7 @@ def _check_restore(case, ctx):
     from simpletal import simpleTAL
     text = M.serialise(case["template"])
     tpl = simpleTAL.compileHTMLTemplate(text, minimizeBooleanAtts=1 if case.get("minimize") else 0)
-    c = c17.make_context(case["ctx"])
+    c = c17.make_context(case["ctx"], allow_python=1 if case.get("pybind") else 0)
     if case.get("include"):
         c.addGlobal("subtpl", simpleTAL.compileHTMLTemplate(
             '<b tal:content="s1">x</b><i tal:define="q s2" tal:content="q">y</i><u tal:repeat="r lst2" tal:content="r">z</u>'))
@@ -435,7 +445,8 @@ def _check_restore(case, ctx):
     if rep or hasdef:
         ctx.nontriv()
     ctx.label("restore", "restore-repeats:%d" % min(rep, 3), "restore-define:%s" % hasdef, "restore-include:%s" % bool(case.get("include")),
-              "restore-iterator-loops:%s" % bool(case.get("iters")), "restore-re-entrant:%s" % bool(case.get("recur")))
+              "restore-iterator-loops:%s" % bool(case.get("iters")), "restore-re-entrant:%s" % bool(case.get("recur")),
+              "restore-python-binders:%s" % bool(case.get("pybind")))
     ctx.sample({"template": text[:500]}, cls="restore")
     fails = []
     if c.locals != before_locals:
